@@ -31,14 +31,16 @@ VARIABLES
   exited,
   wrote,     \* ownership-related commands written in this step
   shut,      \* the application's reactor has shut down (its "before shutdown" triggers have run)
+  held,      \* the Tor process has been reaped but one of its pipes is still open (inherited by a helper process):
+             \* Twisted reports the end of the process only when the pipes are closed too
   steps
 
-vars == <<dirKind, dirExists, attempted, conn, stage, subscribed, owned, saw100, res, launch, nlaunch, tmo, terms, exited, wrote, shut, steps>>
+vars == <<dirKind, dirExists, attempted, conn, stage, subscribed, owned, saw100, res, launch, nlaunch, tmo, terms, exited, wrote, shut, held, steps>>
 
 Init ==
   /\ dirKind \in {"temp", "user", "cfg", "usernew"} /\ dirExists = TRUE
   /\ attempted = FALSE /\ conn = "none" /\ stage = "none" /\ subscribed = FALSE /\ owned = FALSE /\ saw100 = FALSE
-  /\ res = "p" /\ launch = "p" /\ nlaunch = 0 /\ tmo = "armed" /\ terms = 0 /\ exited = FALSE /\ wrote = <<>> /\ shut = FALSE /\ steps = 0
+  /\ res = "p" /\ launch = "p" /\ nlaunch = 0 /\ tmo = "armed" /\ terms = 0 /\ exited = FALSE /\ wrote = <<>> /\ shut = FALSE /\ held = FALSE /\ steps = 0
 
 \* the launch result follows the "connected" outcome; on success launch() additionally waits until the
 \* configuration object is attached, i.e. until no ownership command is still awaiting its reply
@@ -90,12 +92,22 @@ Progress(p) ==
   /\ wrote' = <<>> /\ Settle(res', stage)
   /\ UNCHANGED <<dirKind, dirExists, attempted, conn, stage, subscribed, owned, terms, exited>>
 
+\* (with the process reaped and a pipe still open, the TERM signal has nobody to go to: the pipes are let go of
+\* instead, upon which the end of the process is reported and cleaned up after)
 Timeout ==
   /\ tmo = "armed"
-  /\ tmo' = "fired" /\ terms' = IF exited THEN terms ELSE terms + 1
+  /\ tmo' = "fired" /\ terms' = IF exited \/ held THEN terms ELSE terms + 1
   /\ res' = IF res = "p" THEN "err" ELSE res
+  /\ exited' = (exited \/ held)
+  /\ dirExists' = IF held /\ dirKind = "temp" THEN FALSE ELSE dirExists
   /\ wrote' = <<>> /\ Settle(res', stage)
-  /\ UNCHANGED <<dirKind, dirExists, attempted, conn, stage, subscribed, owned, saw100, exited>>
+  /\ UNCHANGED <<dirKind, attempted, conn, stage, subscribed, owned, saw100>>
+
+\* the process is reaped while a pipe stays open: nothing is reported as ended yet
+ExitHeld ==
+  /\ ~exited /\ ~held /\ held' = TRUE
+  /\ wrote' = <<>> /\ steps' = steps + 1
+  /\ UNCHANGED <<dirKind, dirExists, attempted, conn, stage, subscribed, owned, saw100, res, launch, nlaunch, tmo, terms, exited, shut>>
 
 Exit ==
   /\ ~exited /\ exited' = TRUE
@@ -112,16 +124,19 @@ Shutdown ==
   /\ wrote' = <<>> /\ steps' = steps + 1
   /\ UNCHANGED <<dirKind, attempted, conn, stage, subscribed, owned, saw100, res, launch, nlaunch, tmo, terms, exited>>
 
+\* (once the process is reaped nothing but the timeout and the closing of the pipes - Exit - can follow)
 Next ==
   /\ steps < MaxSteps /\ ~shut
-  /\ \/ /\ \/ \E m \in BOOLEAN : Stdout(m)
+  /\ \/ /\ ~held
+        /\ \/ \E m \in BOOLEAN : Stdout(m)
            \/ Stderr
            \/ \E h \in {"ok", "authfail", "refused"} : Connect(h)
            \/ \E ok \in BOOLEAN : CtlReply(ok)
            \/ \E p \in {10, 50, 100} : Progress(p)
-           \/ Timeout \/ Exit
-        /\ UNCHANGED shut
-     \/ Shutdown
+        /\ UNCHANGED <<shut, held>>
+     \/ (Timeout \/ Exit) /\ UNCHANGED <<shut, held>>
+     \/ ExitHeld
+     \/ Shutdown /\ UNCHANGED held
 
 Spec == Init /\ [][Next]_vars
 
